@@ -76,7 +76,7 @@ def ob_update_params_paused(ctx):
             # transparency: only the parameters item is written
             for ev in st.log:
                 if ev[0] == 'write' and ev[2] != ('K', b'\x00\x0bparameteres'):
-                    ctx.violation('UpdateParams writes something else than the parameters', 'update_params:frame', {'family': str(ev[2])})
+                    ctx.infeasible(st, 'UpdateParams writes something else than the parameters (a pause / unpause cycle alters nothing else)', 'update_params:frame', W.mv)
     ctx.expect_witness('unpause possible without legacy entries', 'owner unpauses with 0 legacy')
 
 
@@ -176,6 +176,15 @@ def ORACLE(v, scn, out):
         return ['accepted while paused: ' + str(res)[:200]] if 'ok' in res else []
     if key == 'update_params:owner':
         return ['accepted from non-owner'] if ('ok' in res and scn['info']['sender'] != 'owner_addr') else []
+    if key == 'update_params:frame':
+        import base64
+        if 'ok' not in res:
+            return []
+        pre = {k_: v_ for k_, v_ in scn['storage']}
+        post = {k_: v_ for k_, v_ in out.get('storage', [])}
+        pk = base64.b64encode(b'\x00\x0bparameteres').decode()
+        ch = [base64.b64decode(k_) for k_ in set(pre) | set(post) if k_ != pk and pre.get(k_) != post.get(k_)]
+        return ['UpdateParams changed storage items %r' % ch] if ch else []
     if key == 'migrate:legacy':
         import base64, json as js
         from smir import rawstore
